@@ -835,9 +835,15 @@ class _ILoc:
                 if rows != slice(None) or not isinstance(col, int):
                     raise OutsideModel("DataFrame.iloc with a general 2-D key")
                 return o[o.columns[col]]
+            if isinstance(k, slice) and isinstance(o.index, LIndex):
+                # a slice is a VIEW in pandas: the columns keep sharing their buffers
+                idx = o.index[k]
+                return FakeFrame({c: FakeSeries((v.arr if isinstance(v, FakeSeries) else v)[k], idx, name=c) for c, v in o.data.items()}, index=idx)
             return o._rows(_select(len(o), _concrete_key(k)))
         if not isinstance(o.index, LIndex):
             return o.arr[k]
+        if isinstance(k, slice):
+            return FakeSeries(o.arr[k], o.index[k], name=o.name)
         return o._rows(_select(len(o), _concrete_key(k)))
 
 
